@@ -3,7 +3,7 @@
 (* spec -> impl generator for the constructor side of C01: every            *)
 (* (year, month, day) triple over Years x 0..14 x 0..33 and a set of raw    *)
 (* day numbers, each with the verdict the specification demands (accepted  *)
-(* with which day number, or rejected with which error kind).  TLC checks  *)
+(* with which day number, or rejected with which error gkind).  TLC checks  *)
 (* on the way that "verdict = accepted" coincides with "names a real date" *)
 (* (a date the calendar walker visits).  One GEN line per state.           *)
 (***************************************************************************)
@@ -12,11 +12,11 @@ EXTENDS Cal, TLC
 CONSTANTS Years,      \* set of years to enumerate
           RawDays     \* set of raw day numbers for try_from_days
 
-VARIABLES kind, y, m, d
-vars == <<kind, y, m, d>>
+VARIABLES gkind, gy, gm, gd
+vars == <<gkind, gy, gm, gd>>
 
-Init == \/ kind = "ymd" /\ y \in Years /\ m \in 0..14 /\ d \in 0..33
-        \/ kind = "day" /\ y \in RawDays /\ m = 0 /\ d = 0
+Init == \/ gkind = "ymd" /\ gy \in Years /\ gm \in 0..14 /\ gd \in 0..33
+        \/ gkind = "day" /\ gy \in RawDays /\ gm = 0 /\ gd = 0
 Next == UNCHANGED vars
 Spec == Init /\ [][Next]_vars
 
@@ -26,11 +26,11 @@ Real(yy, mm, dd) ==
   /\ LET n == DaysFromCivil(yy, mm, dd) IN
        InDateRange(n) /\ CivilFromDays(n) = <<yy, mm, dd, DayOfYear(yy, mm, dd)>>
 
-VerdictIsReal == kind = "ymd" => ((YmdVerdict(y, m, d) = 0) = Real(y, m, d))
+VerdictIsReal == gkind = "ymd" => ((YmdVerdict(gy, gm, gd) = 0) = Real(gy, gm, gd))
 
 Emit ==
-  IF kind = "ymd" THEN
-    LET v == YmdVerdict(y, m, d) IN
-    PrintT(<<"GEN", "ymd", y, m, d, v, IF v = 0 THEN DaysFromCivil(y, m, d) ELSE 0>>)
-  ELSE PrintT(<<"GEN", "day", y, IF InDateRange(y) THEN 0 ELSE EDateOutOfRange>>)
+  IF gkind = "ymd" THEN
+    LET v == YmdVerdict(gy, gm, gd) IN
+    PrintT(<<"GEN", "ymd", gy, gm, gd, v, IF v = 0 THEN DaysFromCivil(gy, gm, gd) ELSE 0>>)
+  ELSE PrintT(<<"GEN", "day", gy, IF InDateRange(gy) THEN 0 ELSE EDateOutOfRange>>)
 =============================================================================
